@@ -35,3 +35,9 @@ def check(ctx):
         c06.containers(ctx)
     G.module_template(ctx, "C02.10")
     G.keep_first_or_error(ctx, "C02.9")
+    # closure of references: a type is skipped by the definer iff `substitutes.contains(path)`; it is referenced through its substitute iff the
+    # look-up answers Some. The two must agree on every key of the map (same key, no extra condition on the look-up), else a reference falls back
+    # to a generated path that is never defined
+    from . import c07
+    with ctx.only(lambda k: k.startswith("same-key/")):
+        c07.check(ctx)
